@@ -51,7 +51,6 @@ KEY_TRI = "upper-triangle at time_1 != 0: CustomSD.correlation_2d_integral vs in
 KEY_ETA0 = ("eta_function(0) != 0 (cancellation in the thermal integrand, hot sub-ohmic bath): "
             "upper-triangle at time_1 = 0 vs integration of correlation()")
 
-EPSABS = 1.49e-8             # scipy.integrate.quad default epsabs (the code does not override it)
 
 
 def bits(x):
@@ -176,12 +175,12 @@ def eta_terms(obj, shape, delta, t1, t2, matsubara=False):
 
 def cell_tolerance(direct, terms, nterms):
     """|shape - direct| allowed.  The difference formula combines eta values that are each only
-    as accurate as the quadrature that produced them (requested: epsrel relative, scipy's default
-    epsabs absolute; QUADPACK's error estimate is not a bound -- observed up to 2.5e-6 of the
+    as accurate as the quadrature that produced them (requested: epsrel relative; QUADPACK's error
+    estimate is not a bound -- observed up to 2.5e-6 of the
     terms for singular/oscillatory integrands; calibration over 440 random cells of the sampled
     domain: at most 0.07 of this allowance), so the comparison is relative to the *terms*,
     plus 1e-6 of the cell value for the direct integration itself."""
-    return 1e-6 * abs(direct) + 2e-5 * terms + 20 * EPSABS * nterms
+    return 1e-6 * abs(direct) + 2e-5 * terms
 
 
 def cells_for(rng, dt, tier_n):
@@ -274,15 +273,15 @@ def closed_form_T0_exp(alpha, zeta, wc, tau):
 
 
 # --- late times with the library's DEFAULT quadrature arguments ---------------------------
-# cutoff * tau where the unchanged code still converges with its default epsrel / subdiv_limit
-# (measured: 'hard' exact up to cutoff*tau = 1500, 'exponential' to 1e-14 up to 60, 'gaussian'
-# exact up to 400; beyond that QUADPACK already reports failure on the unchanged tree)
+# cutoff * tau where the code converges with its default epsrel / subdiv_limit without any
+# IntegrationWarning (measured: 'hard' up to cutoff*tau = 1500, 'exponential' up to 30,
+# 'gaussian' up to 200; beyond that the (cutoff, inf) part reaches the subdivision limit)
 LATE_POINTS = [
     # alpha, zeta, wc, cutoff type, T/wc, [cutoff*tau ...]
     (0.3, 1.0, 5.0, "hard", 0.0, [1250.0, 1500.0]),
     (0.3, 3.0, 5.0, "hard", 0.2, [1500.0]),
-    (0.3, 1.0, 5.0, "exponential", 0.0, [30.0, 60.0]),
-    (0.5, 1.0, 2.0, "gaussian", 0.0, [200.0, 400.0]),
+    (0.3, 1.0, 5.0, "exponential", 0.0, [20.0, 30.0]),
+    (0.5, 1.0, 2.0, "gaussian", 0.0, [100.0, 200.0]),
 ]
 LATE_CELLS = [
     # alpha, zeta, wc, cutoff type, T/wc, dt, [(shape, time_1, time_2)]
@@ -313,18 +312,14 @@ def oracle_late(stream):
                 refs["closed form"] = complex(closed_form_T0_hard_ohmic(alpha, wc, tau))
             if t_over == 0.0 and ct == "exponential":
                 refs["closed form"] = complex(closed_form_T0_exp(alpha, zeta, wc, tau))
-            # the two library calls agree to 1e-12 on the unchanged tree; the closed form is met
-            # only up to scipy's default epsabs (observed 2e-8 relative for the exponential cutoff)
-            bad = {k: [z.real, z.imag] for k, z in refs.items()
-                   if abs(v - z) > (1e-8 * abs(z) if k != "closed form" else 1e-6 * abs(z) + 4 * EPSABS)}
+            bad = {k: [z.real, z.imag] for k, z in refs.items() if abs(v - z) > 1e-8 * abs(z)}
             key = "late-time correlation() with default epsrel/subdiv_limit: %s cutoff" % ct
             yield key, (None if not bad else {
                 "class": "PowerLawSD", "alpha": alpha, "zeta": zeta, "cutoff": wc, "cutoff_type": ct,
                 "temperature": t_over * wc, "tau": tau, "cutoff*tau": x,
                 "correlation(tau)": [v.real, v.imag], "references_missed": bad,
                 "how": "obj.correlation(tau) with the default arguments vs the listed references "
-                       "(1e-8 relative for the explicit-argument call, where the unchanged code agrees to "
-                       "1e-12; 1e-6 + 4 epsabs for the closed form)"})
+                       "(1e-8 relative)"})
     for (alpha, zeta, wc, ct, t_over, dt, cells) in LATE_CELLS:
         obj = PowerLawSD(alpha, zeta, wc, ct, t_over * wc)
         for (shape, t1, t2) in cells:
@@ -350,8 +345,11 @@ def oracle_late(stream):
 # s = 1e-6, 1e-9, 1e-12.  For the exponential/gaussian cutoffs this needs the frequency quadrature
 # to be done in x = w/cutoff (then the cells agree to 1e-14 for s = 1e-9 .. 1e6); with the
 # quadrature in w itself the (cutoff, inf) tail is silently lost outside cutoffs ~[4e-3, 4e3]
-# (40-100 % at time units 1e-6 and 1e6).  correlation() itself carries scipy's default absolute
-# tolerance, so C*s^2 is compared up to 4*epsabs*s^2.
+# (40-100 % at time units 1e-6 and 1e6); and it needs a purely relative quadrature tolerance
+# (epsabs=0.0): with scipy's default epsabs=1.49e-8 correlation() -- and the offset upper-triangle,
+# which integrates it -- lose accuracy for small cutoffs / couplings (5e-5..1e-2 at cutoff 4e-6,
+# 3e-3 at alpha 1e-6).  The same family is run over the coupling strength: cells / alpha and
+# C / alpha must not depend on alpha.
 SCALE_POINTS = [
     # alpha, zeta, wc, cutoff type, T/wc, dt*wc, [time units]
     (0.3, 1.0, 4.0, "hard", 0.0, 0.3712345678912, [1e-6, 1e-9]),
@@ -384,15 +382,11 @@ def oracle_scale(stream):
             key = "scale covariance (time unit %g): %s cutoff" % (s_, ct)
             worst = None
             for (sh, k, k2), v, b, tm in zip(SCALE_CELLS, cells, base[0], base[1]):
-                if s_ > 1.0 and sh == "upper-triangle" and k != 0:
-                    # the offset triangle contains delta * int_0^time_1 correlation(), which
-                    # carries scipy's absolute tolerance (not scale covariant for small cutoffs)
-                    continue
                 if abs(v - b) > 1e-9 * tm + 1e-9 * abs(b):
                     worst = {"shape": sh, "time_1/dt": k, "time_2/dt": k2,
                              "unit 1": [b.real, b.imag], "unit %g" % s_: [v.real, v.imag]}
                     break
-            if worst is None and abs(corr - base[2]) > 1e-9 * abs(base[2]) + 4 * EPSABS * s_ * s_:
+            if worst is None and abs(corr - base[2]) > 1e-9 * abs(base[2]):
                 worst = {"quantity": "correlation(1.3 dt) * unit^2", "unit 1": [base[2].real, base[2].imag],
                          "unit %g" % s_: [corr.real, corr.imag]}
             if worst is not None:
@@ -412,12 +406,52 @@ def oracle_scale(stream):
                     c_ = complex(PowerLawSD(alpha, zeta, w_, ct, 0.0).correlation(tau))
                 cf = complex(closed_form_T0_exp(alpha, zeta, w_, tau))
                 key = "T=0 closed form (time unit %g): exponential cutoff" % s_
-                yield key, (None if abs(c_ - cf) <= 1e-6 * abs(cf) + 4 * EPSABS else {
+                yield key, (None if abs(c_ - cf) <= 1e-7 * abs(cf) else {
                     "class": "PowerLawSD", "alpha": alpha, "zeta": zeta, "cutoff": w_, "cutoff_type": ct,
                     "temperature": 0.0, "tau": tau, "correlation(tau)": [c_.real, c_.imag],
                     "closed_form": [cf.real, cf.imag],
                     "how": "PowerLawSD(alpha, zeta, cutoff, 'exponential', 0).correlation(tau) vs "
                            "2 alpha cutoff^(1-zeta) Gamma(zeta+1) (1/cutoff + i tau)^-(zeta+1)"})
+
+
+COUPLINGS = [1e-3, 1e-6]
+
+
+def oracle_coupling(stream):
+    """cells / alpha and C / alpha do not depend on alpha"""
+    from oqupy.bath_correlations import PowerLawSD
+    for (alpha, zeta, wc, ct, t_over, dtw, _units) in SCALE_POINTS[1:4]:
+        vals = {}
+        dt = dtw / wc
+        for a_ in [1.0] + COUPLINGS:
+            with stream("scale"):
+                obj = PowerLawSD(a_, zeta, wc, ct, t_over * wc)
+                cells = [complex(obj.correlation_2d_integral(dt, k * dt, None if k2 is None else k2 * dt, sh)) / a_
+                         for (sh, k, k2) in SCALE_CELLS]
+                terms = [eta_terms(obj, sh, dt, k * dt, None if k2 is None else k2 * dt) / a_
+                         for (sh, k, k2) in SCALE_CELLS]
+                corr = complex(obj.correlation(1.3 * dt)) / a_
+            vals[a_] = (cells, terms, corr)
+        base = vals[1.0]
+        for a_ in COUPLINGS:
+            cells, terms, corr = vals[a_]
+            key = "coupling covariance (alpha %g): %s cutoff" % (a_, ct)
+            worst = None
+            for (sh, k, k2), v, b, tm in zip(SCALE_CELLS, cells, base[0], base[1]):
+                if abs(v - b) > 1e-9 * tm + 1e-9 * abs(b):
+                    worst = {"shape": sh, "time_1/dt": k, "time_2/dt": k2,
+                             "alpha 1 (value/alpha)": [b.real, b.imag],
+                             "alpha %g (value/alpha)" % a_: [v.real, v.imag]}
+                    break
+            if worst is None and abs(corr - base[2]) > 1e-9 * abs(base[2]):
+                worst = {"quantity": "correlation(1.3 dt) / alpha", "alpha 1": [base[2].real, base[2].imag],
+                         "alpha %g" % a_: [corr.real, corr.imag]}
+            if worst is not None:
+                worst.update({"class": "PowerLawSD", "zeta": zeta, "cutoff": wc, "cutoff_type": ct,
+                              "temperature": t_over * wc, "dt": dt, "alpha": a_,
+                              "how": "PowerLawSD(alpha, ...) values divided by alpha vs PowerLawSD(1.0, ...): "
+                                     "tolerance 1e-9 of the eta terms"})
+            yield key, worst
 
 
 def oracle_memo(obj, taus, matsubara=False):
@@ -726,9 +760,10 @@ def correspondence(res, tier, rng):
             res.disagree(key, bad)
     mark("(f) late times, default arguments")
     # ---- (g) scale covariance, memo tie -----------------------------------------------------
-    for key, bad in oracle_scale(wlog):
+    import itertools
+    for key, bad in itertools.chain(oracle_scale(wlog), oracle_coupling(wlog)):
         res.case(key, True)
-        res.count(("scale:" if key.startswith("scale") else "closed-form:") + key.split(":")[1].strip())
+        res.count(key.split("(")[0].strip().replace(" ", "-") + ":" + key.split(":")[1].strip())
         if bad is not None:
             res.disagree(key, bad)
     from oqupy.bath_correlations import PowerLawSD as _P
@@ -847,6 +882,9 @@ def correspondence(res, tier, rng):
             continue
         if kind == "config":
             res.case(line, True, sample)
+            res.notes.append("quadrature absolute tolerance (regenerated from _complex_integral): "
+                             + got.split("epsabs=")[-1])
+            got = got.split(" epsabs=")[0]
             if got != val:
                 res.disagree("oqupy.config values differ from the regenerated constants",
                              {"imported": val, "regenerated": got})
@@ -939,7 +977,7 @@ def correspondence(res, tier, rng):
         tau = rng.uniform(0.2, 3.0) / wc
         c1, c2 = complex(obj.correlation(tau)), complex(obj.correlation(-tau))
         res.case("conj %s tau=%r" % (pstr(pt), tau), True)
-        if abs(c2 - c1.conjugate()) > 1e-6 * abs(c1) + 100 * EPSABS:
+        if abs(c2 - c1.conjugate()) > 1e-6 * abs(c1):
             res.disagree("C(-tau) != conj C(tau)", {"point": pstr(pt), "tau": tau,
                                                     "C(tau)": repr(c1), "C(-tau)": repr(c2)})
         tri = complex(obj.correlation_2d_integral(dt, 0.0, shape="upper-triangle"))
@@ -1031,7 +1069,8 @@ def search(res, rng=None, budget_points=None):
             seen.add(key)
             res.fail(key, bad)
     # scale covariance, memo tie
-    for key, bad in oracle_scale(WarningLog()):
+    import itertools
+    for key, bad in itertools.chain(oracle_scale(WarningLog()), oracle_coupling(WarningLog())):
         if bad is not None and key not in seen:
             seen.add(key)
             res.fail(key, bad)
@@ -1093,14 +1132,14 @@ def search(res, rng=None, budget_points=None):
         # (d)
         tau = rng.uniform(0.2, 3.0) / wc
         c1, c2 = complex(obj.correlation(tau)), complex(obj.correlation(-tau))
-        if abs(c2 - c1.conjugate()) > 1e-6 * abs(c1) + 100 * EPSABS:
+        if abs(c2 - c1.conjugate()) > 1e-6 * abs(c1):
             res.fail("conj:%s" % ct, {"point": pstr(pt), "tau": tau, "C(tau)": repr(c1), "C(-tau)": repr(c2)})
         tri = complex(obj.correlation_2d_integral(dt, 0.0, shape="upper-triangle"))
         if not tri.real > 0:
             res.fail("re-tri:%s" % ct, {"point": pstr(pt), "dt": dt, "eta_tri": repr(tri)})
         if T == 0 and ct == "exponential":
             cf = closed_form_T0_exp(alpha, zeta, wc, tau)
-            if abs(c1 - cf) > 1e-6 * abs(cf) + 100 * EPSABS:
+            if abs(c1 - cf) > 1e-6 * abs(cf):
                 res.fail("closed-form:T=0 exponential", {"point": pstr(pt), "tau": tau,
                                                          "correlation": repr(c1), "closed_form": repr(cf)})
         cust = CustomSD(lambda w, a=alpha, z=zeta, c=wc: 2.0 * a * w ** z * c ** (1 - z),
@@ -1120,8 +1159,9 @@ def replay_case(res, payload):
     """re-judge one stored failing input (corpus/C12/*.json, --replay) on the real code"""
     fi = payload.get("failing_input", payload)
     key = payload.get("key", "")
-    if key.startswith("scale covariance") or key.startswith("T=0 closed form"):
-        for k, bad in oracle_scale(WarningLog()):
+    if key.startswith(("scale covariance", "T=0 closed form", "coupling covariance")):
+        import itertools
+        for k, bad in itertools.chain(oracle_scale(WarningLog()), oracle_coupling(WarningLog())):
             if bad is not None and k == key:
                 res.fail(k, bad)
                 return True
@@ -1184,7 +1224,7 @@ def run(tier, seed, replay):
     res.assumptions = [
         "scipy.integrate.quad/dblquad return the integral up to the requested tolerance where "
         "they report success (the comparison tolerance of (b) is relative to the eta terms: "
-        "1e-6 of the cell + 2e-5 of the terms + 20 epsabs per term)",
+        "1e-6 of the cell + 2e-5 of the terms)",
         "numpy/libm exp, cos, sin, pow agree with Lean's Float functions to 1e-12 relative",
         "binary64 model for the time arguments: round-to-nearest-even, no overflow/subnormal",
         "a spectral density j(omega) that is real",
@@ -1194,20 +1234,14 @@ def run(tier, seed, replay):
     ]
     res.not_shown = [
         "accuracy of QUADPACK (quad, dblquad): the eta_function / correlation values are taken "
-        "as the integrals of the generated integrands; observed: quad is called with scipy's "
-        "default epsabs=1.49e-8, so for alpha <~ 1e-3 the requested epsrel is not reached "
-        "(relative errors up to 3e-3 at alpha=1e-6), and a silent QAGI misestimate of 0.9% in "
-        "Im eta at T/cutoff=70 (gaussian, zeta=3)",
+        "as the integrals of the generated integrands; observed: a silent QAGI misestimate of "
+        "0.9% in Im eta at T/cutoff=70 (gaussian, zeta=3); CustomCorrelations hands the user's "
+        "callable to dblquad with scipy's default epsabs=1.49e-8 (absolute), so cells of very "
+        "small magnitude are only that accurate",
         "late times beyond the range of (f): on the unchanged tree correlation() and the cells "
         "already lose all relative accuracy (QUADPACK reports failure) for the exponential cutoff "
         "at cutoff*tau >= 100-200 (20 % at 200, factor 500 at 400; up to 5 % of C(0) in absolute "
         "terms) and for the gaussian cutoff at cutoff*tau >= 800",
-        "correlation() for very small cutoffs / couplings: scipy's default epsabs=1.49e-8 is an "
-        "absolute tolerance on C ~ alpha*cutoff^2, so at cutoff 4e-6 (time unit 1e6) C is only "
-        "accurate to 5e-5..1e-2 relative (all cutoff types; the cells, being dimensionless, are "
-        "not affected, except the upper-triangle at time_1 != 0, which integrates correlation(): "
-        "4e-8 relative at time unit 1e3, 1e-4 at 1e6); comparisons of C carry 4*epsabs and the "
-        "offset triangle is left out of the scale family for time units > 1",
         "the Gamma-function closed form of C(tau) at T=0 (exponential cutoff) is used only as a "
         "search oracle, not proved",
         "differentiation under the omega-integral: that the omega-integral of the eta kernel is "
@@ -1215,8 +1249,8 @@ def run(tier, seed, replay):
         "are shown to be the documented ones; region theorems assume eta'' = C)",
         "strict positivity Re eta_tri > 0 (proved: the integrand is >= 0 pointwise; > 0 needs J "
         "not to vanish almost everywhere)",
-        "zeta < 0.2 at T > 0 (integrand singular like omega^(zeta-1)) and alpha < 0.05 are not "
-        "sampled by the tolerance-based comparisons",
+        "zeta < 0.2 at T > 0 (integrand singular like omega^(zeta-1)) is not sampled by the "
+        "tolerance-based comparisons",
     ]
     res.trusted.append("Lean Float (libm) in the integrand comparison; Mathlib's interval "
                        "integral / FTC for the region theorems")
